@@ -705,8 +705,8 @@ impl<'a> Interp<'a> {
         let mut secs: Vec<(u64, i64, Vec<u64>)> = vec![];
         for s in sectors {
             let mut ids: Vec<u64> = s.deals.iter().map(|d| self.deal_ref_pref(*d, &|x| x.st == DealSt::Published && x.provider == miner && x.start >= epoch)).collect();
-            if s.sector % 8 != 7 {
-                // mostly avoid naming one deal twice in a sector (kept as a rare adversarial variant)
+            if s.sector % 4 != 3 {
+                // mostly avoid naming one deal twice in a sector (kept as an adversarial variant)
                 let mut seen = BTreeSet::new();
                 ids.retain(|x| seen.insert(*x));
             }
@@ -957,7 +957,7 @@ pub fn op_strategy(focus: Focus) -> BoxedStrategy<Op> {
         w_wd => (0u8..10, 0u8..10, prop_oneof![3 => 0u16..1000, 1 => Just(1000u16), 1 => 1001u16..1500], prop_oneof![15 => Just(false), 1 => Just(true)])
             .prop_map(|(caller, party, pm, negative)| Op::Withdraw { caller, party, pm, negative }),
         w_pub => (0u8..12, proptest::collection::vec(deal_spec(8), 1..4)).prop_map(|(caller, deals)| Op::Publish { caller, deals }),
-        w_act => (0u8..2, any::<bool>(), proptest::collection::vec((0u8..8, prop_oneof![5 => 0i8..3, 1 => -2i8..0], proptest::collection::vec(any::<u16>(), 1..3)).prop_map(|(sector, expiry_rel, deals)| SectorSpec { sector, expiry_rel, deals }), 1..3), prop_oneof![12 => Just(false), 1 => Just(true)])
+        w_act => (0u8..2, any::<bool>(), proptest::collection::vec((0u8..8, prop_oneof![5 => 0i8..3, 1 => -2i8..0], proptest::collection::vec(any::<u16>(), 1..5)).prop_map(|(sector, expiry_rel, deals)| SectorSpec { sector, expiry_rel, deals }), 1..3), prop_oneof![12 => Just(false), 1 => Just(true)])
             .prop_map(|(miner, scc, sectors, wrong_piece)| Op::Activate { miner, scc, sectors, wrong_piece }),
         w_set => (0u8..8, proptest::collection::vec(any::<u16>(), 1..4)).prop_map(|(caller, deals)| Op::Settle { caller, deals }),
         w_term => (0u8..2, proptest::collection::vec(0u8..6, 1..3)).prop_map(|(miner, sectors)| Op::Terminate { miner, sectors }),
